@@ -281,8 +281,6 @@ def normalise_into(store, events):
 def item_brief(it):
     if it is None:
         return "none"
-    if it[0] in ("D", "W"):
-        return "%s[%d]" % (it[0], len(it[2]))
     return it[0]
 
 
